@@ -60,6 +60,9 @@ def hygiene():
         if cc is not None:
             cc()
         ast_nodes.MAX_EMPTY = 100
+        from xlcalculator.xlfunctions import xl
+        for name in ('SPY', 'FLAKY', 'BOOM'):
+            xl.FUNCTIONS.pop(name, None)
     except Exception:
         pass
     gc.collect()
@@ -113,9 +116,11 @@ def _chunk_task(pid, tier, seeds, want_digests):
         mod = prop_module(pid)
         agg = {'runs': 0, 'stats': {}, 'sigs': set(), 'cover': set(),
                'viols': [], 'samples': [], 'digests': {}, 'errors': []}
-        for seed in seeds:
+        uses_index = getattr(mod, 'USES_INDEX', False)
+        for index, seed in seeds:
             try:
-                case = mod.gen_case(seed, tier)
+                case = mod.gen_case(seed, tier, index) if uses_index \
+                    else mod.gen_case(seed, tier)
                 res = execute(mod, case)
             except MemoryError:
                 agg['errors'].append(
@@ -222,7 +227,7 @@ def check(pid, tier='quick', base_seed=0, workers=None, runs=None,
     known = load_known()
     t0 = time.time()
     n = budget['runs']
-    seeds = [run_seed(pid, base_seed, i) for i in range(n)]
+    seeds = [(i, run_seed(pid, base_seed, i)) for i in range(n)]
     chunks = [seeds[i:i + chunk] for i in range(0, n, chunk)]
 
     agg = {'runs': 0, 'stats': {}, 'sigs': set(), 'cover': set(),
